@@ -58,6 +58,20 @@ Proof.
   vm_compute. discriminate.
 Qed.
 
+Theorem init_cavity_without_prior_factors_current_refuted :
+  exists fs priors i v,
+    i < length (graph_factors false fs []) /\ In v (nth i (graph_factors false fs []) [])
+    /\ nget v (n_cavity i (ninit code_counts_occurrences false fs [] priors n_zero)) <> Some (prior_of N2 priors v n_zero).
+Proof.
+  exists [[0]], w_priors, 0, 0. repeat split; try (vm_compute; auto; lia).
+  vm_compute. discriminate.
+Qed.
+(* include_prior_factors = False but the prior is shared by two factors: the hypothesis of init_cavity_current holds *)
+Example init_current_nonvacuous :
+  2 <= length (filter (has_var 0) [[0; 1]; [0]])
+  /\ differs (nget 0 (n_cavity 1 (ninit code_counts_occurrences false [[0; 1]; [0]] [] [(0, N 0 4); (1, N 1 2)] n_zero))) (N 0 4) = false.
+Proof. split; vm_compute; [lia|reflexivity]. Qed.
+
 (* ---- latest_result: two successful optimisations with results 1 then 2: the code returns 1 ---- *)
 Definition h_ok (t : Z) : hentry N2 := {| h_success := true; h_updated := true; h_token := Some t; h_state := [] |}.
 Theorem latest_result_refuted :
